@@ -26,7 +26,22 @@ type World struct {
 	Region map[*ssa.Function][]*ssa.Function
 }
 
+// resetGlobals clears every package-level cache: a World is built from scratch for each build
+// configuration, mutant overlay and refactoring overlay, and nothing computed for one program may
+// leak into the analysis of another (interned call environments are keyed by rendered names,
+// which coincide across programs).
+func resetGlobals() {
+	implCache = map[*types.Func][]*ssa.Function{}
+	cycleCache = map[*ssa.BasicBlock]bool{}
+	mustTrackedCache = map[ssa.Instruction][]ssa.Instruction{}
+	envIntern = map[string]*Env{}
+	deferMarkers = map[ssa.Instruction]ssa.Instruction{}
+	singleSite = map[*ssa.Function]ssa.Instruction{}
+	goStarted = map[*ssa.Function]ssa.Instruction{}
+}
+
 func BuildWorld(dir string, env []string, overlay map[string][]byte) *World {
+	resetGlobals()
 	p := LoadProgram(dir, env, overlay)
 	ts := NewTerms(p)
 	cg := BuildCallGraph(p)
